@@ -24,7 +24,8 @@
 EXTENDS Integers, Sequences, FiniteSets, TLC
 
 CONSTANTS Conns,     \* connection ids
-          Vikja,     \* BOOLEAN: the vikja module is loaded
+          Vikja,     \* BOOLEAN: the vikja module is loaded (entity actions)
+          Odal,      \* BOOLEAN: the odal module is loaded (asset instances); at most one of the two
           ProgSet,   \* set of programs: [Conns -> Seq(request)]
           Serial     \* BOOLEAN: TRUE = handlers never overlap (baseline for Conv)
 
@@ -71,6 +72,12 @@ EntAddB(e, o)         == [t |-> "ENTITY_ADD_BROADCAST", eid |-> e, owner |-> o]
 EntDelResp(rid, e)    == [t |-> "ENTITY_DELETE_RESPONSE", rid |-> rid, eid |-> e]
 EntDelB(e)            == [t |-> "ENTITY_DELETE_BROADCAST", eid |-> e]
 VikjaState(as)        == [t |-> "VIKJA_STATE", acts |-> as]
+OdalState(as)         == [t |-> "ODAL_STATE", acts |-> as]          \* rows [eid, v]: v = asset instance id
+AssetResp(rid, e, v)  == [t |-> "ASSET_ADD_RESPONSE", rid |-> rid, eid |-> e, v |-> v]
+AssetB(e, v)          == [t |-> "ASSET_ADD_BROADCAST", eid |-> e, v |-> v]
+HasMod                == Vikja \/ Odal
+ASSUME ~(Vikja /\ Odal)
+ModLbl(v, o)          == IF Odal THEN o ELSE v
 ActionResp(rid, e, v) == [t |-> "ACTION_RESPONSE", rid |-> rid, eid |-> e, v |-> v]
 ActionB(e, v)         == [t |-> "ACTION_BROADCAST", eid |-> e, v |-> v]
 
@@ -105,9 +112,9 @@ GateOf(c) ==
     [] pc[c] = "J_snapC"    -> [fn |-> "(*EntityComponentStore).ListAll:RLock",          lock |-> <<"ecs", s>>,    mode |-> "R"]
     [] pc[c] = "J_bcast"    -> [fn |-> "(*Session).Broadcast:RLock",                     lock |-> <<"pmu", s>>,    mode |-> "R"]
     [] pc[c] = "M_init"     -> [fn |-> "(*Session).ModuleStateOrSet:Lock",               lock |-> <<"mmu", s>>,    mode |-> "W"]
-    [] pc[c] = "M_state"    -> [fn |-> "(*State).EntityActions:RLock",                   lock |-> <<"vmu", conn[c].ms>>, mode |-> "R"]
+    [] pc[c] = "M_state"    -> [fn |-> ModLbl("(*State).EntityActions:RLock", "(*State).AssetInstances:RLock"), lock |-> <<"vmu", conn[c].ms>>, mode |-> "R"]
     [] pc[c] = "V_disc"     -> [fn |-> "(*Session).EntityByID:RLock",                    lock |-> <<"emu", s>>,    mode |-> "R"]
-    [] pc[c] = "V_discrm"   -> [fn |-> "(*State).RemoveEntityActions:Lock",              lock |-> <<"vmu", conn[c].ms>>, mode |-> "W"]
+    [] pc[c] = "V_discrm"   -> [fn |-> ModLbl("(*State).RemoveEntityActions:Lock", "(*State).RemoveAssetInstance:Lock"), lock |-> <<"vmu", conn[c].ms>>, mode |-> "W"]
     [] pc[c] = "L_unsub"    -> [fn |-> "(*EntityComponentStore).UnsubscribeByParticipant:Lock", lock |-> <<"ecs", s>>, mode |-> "W"]
     [] pc[c] = "L_ent"      -> [fn |-> "(*Session).EntityByID:RLock",                    lock |-> <<"emu", s>>,    mode |-> "R"]
     [] pc[c] = "L_entcomp"  -> [fn |-> "(*EntityComponentStore).DeleteByEntityID:Lock",  lock |-> <<"ecs", s>>,    mode |-> "W"]
@@ -129,11 +136,15 @@ GateOf(c) ==
     [] pc[c] = "D_rm"       -> [fn |-> "(*Session).RemoveEntity:Lock",                   lock |-> <<"emu", s>>,    mode |-> "W"]
     [] pc[c] = "D_bcast"    -> [fn |-> "(*Session).Broadcast:RLock",                     lock |-> <<"pmu", s>>,    mode |-> "R"]
     [] pc[c] = "D_vget"     -> [fn |-> "(*Session).EntityByID:RLock",                    lock |-> <<"emu", s>>,    mode |-> "R"]
-    [] pc[c] = "D_vrm"      -> [fn |-> "(*State).RemoveEntityActions:Lock",              lock |-> <<"vmu", conn[c].ms>>, mode |-> "W"]
+    [] pc[c] = "D_vrm"      -> [fn |-> ModLbl("(*State).RemoveEntityActions:Lock", "(*State).RemoveAssetInstance:Lock"), lock |-> <<"vmu", conn[c].ms>>, mode |-> "W"]
     [] pc[c] = "A_get"      -> [fn |-> "(*Session).EntityByID:RLock",                    lock |-> <<"emu", s>>,    mode |-> "R"]
     [] pc[c] = "A_cur"      -> [fn |-> "(*State).EntityAction:RLock",                    lock |-> <<"vmu", conn[c].ms>>, mode |-> "R"]
     [] pc[c] = "A_set"      -> [fn |-> "(*State).SetEntityAction:Lock",                  lock |-> <<"vmu", conn[c].ms>>, mode |-> "W"]
     [] pc[c] = "A_bcast"    -> [fn |-> "(*Session).Broadcast:RLock",                     lock |-> <<"pmu", s>>,    mode |-> "R"]
+    [] pc[c] = "S_get"      -> [fn |-> "(*Session).EntityByID:RLock",                    lock |-> <<"emu", s>>,    mode |-> "R"]
+    [] pc[c] = "S_id"       -> [fn |-> "(*SequentialIDGenerator).New:Lock",              lock |-> <<"agen", conn[c].ms>>, mode |-> "W"]
+    [] pc[c] = "S_set"      -> [fn |-> "(*State).SetAssetInstance:Lock",                 lock |-> <<"vmu", conn[c].ms>>, mode |-> "W"]
+    [] pc[c] = "S_bcast"    -> [fn |-> "(*Session).Broadcast:RLock",                     lock |-> <<"pmu", s>>,    mode |-> "R"]
     [] OTHER                -> [fn |-> "start",                                          lock |-> <<"none">>,      mode |-> "N"]
 
 \* Lock / RLock calls the harness sees that have no location here: the code between such a call and the next
@@ -161,7 +172,7 @@ Bcast(o, S, m) == [d \in Conns |-> IF d \in S THEN Append(o[d], m) ELSE o[d]]
 Others(s, c)   == {objs[s].parts[p] : p \in DOMAIN objs[s].parts} \ {c}     \* Session.Broadcast(sender, ..)
 
 EntRows(s)     == {[id |-> e, owner |-> objs[s].ents[e].owner] : e \in DOMAIN objs[s].ents}
-ActRows(m)     == {[eid |-> e, v |-> mst[m][e]] : e \in DOMAIN mst[m]}
+ActRows(m)     == {[eid |-> e, v |-> mst[m][e]] : e \in (DOMAIN mst[m]) \ {0}}    \* (key 0: odal's instance id counter)
 
 (***************************************************************************)
 (* Finishing a request                                                     *)
@@ -178,11 +189,11 @@ SetLoc(c, l)     == loc' = [loc EXCEPT ![c] = l]
 (* Start of a request: the code before the first Lock / RLock call         *)
 (***************************************************************************)
 \* where the leave sequence begins (modules first: vikja HandleDisconnect walks the participant's entity ids)
-LeaveEntry(c) == IF Vikja /\ conn[c].own # {} THEN "V_disc" ELSE "L_unsub"
+LeaveEntry(c) == IF HasMod /\ conn[c].own # {} THEN "V_disc" ELSE "L_unsub"
 
 \* a join request that is refused while its connection stays in a session still goes through the module pass
 \* (HandleWithModule runs for every message of a joined connection): vikja answers it with its state
-JoinModulePass(c) == IF Vikja /\ conn[c].pid # 0 THEN Goto(c, "M_state") /\ Keep(c) ELSE Finish(c)
+JoinModulePass(c) == IF HasMod /\ conn[c].pid # 0 THEN Goto(c, "M_state") /\ Keep(c) ELSE Finish(c)
 
 Begin(c) ==
   /\ Idle(c) /\ prog[c] # <<>> /\ Head(prog[c]).k # "Barrier"
@@ -212,11 +223,11 @@ Start(c) ==
             IF conn[c].pid = 0 THEN Finish(c) /\ out' = out
             ELSE /\ Goto(c, LeaveEntry(c)) /\ out' = out
                  /\ SetLoc(c, [loc[c] EXCEPT !.s = conn[c].sess, !.todo = conn[c].own, !.after = "done", !.ph = "mod"])
-       [] r.k \in {"EntityAdd", "EntityDelete", "Action"} ->
+       [] r.k \in {"EntityAdd", "EntityDelete", "Action", "AssetAdd"} ->
             IF conn[c].pid = 0
             THEN Finish(c) /\ out' = out                  \* "session not joined": an error return, the connection is closed by its owner
             ELSE /\ out' = out /\ Keep(c)
-                 /\ Goto(c, CASE r.k = "EntityAdd" -> "E_id" [] r.k = "EntityDelete" -> "D_get" [] OTHER -> "A_get")
+                 /\ Goto(c, CASE r.k = "EntityAdd" -> "E_id" [] r.k = "EntityDelete" -> "D_get" [] r.k = "AssetAdd" -> "S_get" [] OTHER -> "A_get")
   /\ UNCHANGED <<reg, sidgen, gauge, objs, mst, conn, held>>
 
 (***************************************************************************)
@@ -313,7 +324,7 @@ J_snapC(c) ==            \* session.GetEntityComponents().ListAll(); respond.Sen
 J_bcast(c) ==            \* session.Broadcast(participant, ParticipantJoinBroadcast); then the modules
   LET s == loc[c].s IN
   /\ out' = Bcast(out, Others(s, c), JoinB(loc[c].pid))
-  /\ IF Vikja THEN Goto(c, "M_init") /\ Keep(c) ELSE Finish(c)
+  /\ IF HasMod THEN Goto(c, "M_init") /\ Keep(c) ELSE Finish(c)
   /\ UNCHANGED <<reg, sidgen, gauge, objs, mst, conn, held>>
 
 (***************************************************************************)
@@ -331,7 +342,7 @@ M_init(c) ==             \* state := s.ModuleStateOrSet("vikja", ..)
   /\ UNCHANGED <<reg, sidgen, gauge, held, out>>
 
 M_state(c) ==            \* module pass of the join request: respond.Send(vikja State)
-  /\ out' = Send(out, c, VikjaState(ActRows(conn[c].ms)))
+  /\ out' = Send(out, c, IF Odal THEN OdalState(ActRows(conn[c].ms)) ELSE VikjaState(ActRows(conn[c].ms)))
   /\ Finish(c)
   /\ UNCHANGED <<reg, sidgen, gauge, objs, mst, conn, held>>
 
@@ -488,10 +499,10 @@ D_get(c) ==              \* entity, ok := session.EntityByID(req.EntityId); owne
       e == loc[c].req.eid IN
   /\ IF e \notin DOMAIN objs[s].ents
      THEN /\ out' = Send(out, c, Err(loc[c].rid, NOT_FOUND))
-          /\ IF Vikja THEN Goto(c, "D_vget") /\ Keep(c) ELSE Finish(c)
+          /\ IF HasMod THEN Goto(c, "D_vget") /\ Keep(c) ELSE Finish(c)
      ELSE IF objs[s].ents[e].owner # conn[c].pid
           THEN /\ out' = Send(out, c, Err(loc[c].rid, UNAUTHORIZED))
-               /\ IF Vikja THEN Goto(c, "D_vget") /\ Keep(c) ELSE Finish(c)
+               /\ IF HasMod THEN Goto(c, "D_vget") /\ Keep(c) ELSE Finish(c)
           ELSE /\ out' = out /\ Goto(c, "D_comp") /\ Keep(c)
   /\ UNCHANGED <<reg, sidgen, gauge, objs, mst, conn, held>>
 
@@ -510,7 +521,7 @@ D_rm(c) ==               \* session.RemoveEntity; participant.RemoveEntity; resp
 
 D_bcast(c) ==            \* session.Broadcast(participant, EntityDeleteBroadcast)
   /\ out' = Bcast(out, Others(conn[c].sess, c), EntDelB(loc[c].req.eid))
-  /\ IF Vikja THEN Goto(c, "D_vget") /\ Keep(c) ELSE Finish(c)
+  /\ IF HasMod THEN Goto(c, "D_vget") /\ Keep(c) ELSE Finish(c)
   /\ UNCHANGED <<reg, sidgen, gauge, objs, mst, conn, held>>
 
 D_vget(c) ==             \* vikja handleEntityDelete: if _, ok := EntityByID(req.EntityId); !ok { RemoveEntityActions }
@@ -554,6 +565,38 @@ A_bcast(c) ==            \* session.Broadcast(participant, EntityActionBroadcast
   /\ UNCHANGED <<reg, sidgen, gauge, objs, mst, conn, held>>
 
 (***************************************************************************)
+(* odal handleAssetInstanceAdd: existence and ownership of the entity, a    *)
+(* fresh instance id from the state's own id source, store, answer, relay   *)
+(***************************************************************************)
+S_get(c) ==              \* entity, ok := session.EntityByID(req.EntityId); NOT_FOUND / UNAUTHORIZED
+  LET s == conn[c].sess  e == loc[c].req.eid IN
+  /\ IF e \notin DOMAIN objs[s].ents
+     THEN out' = Send(out, c, Err(loc[c].rid, NOT_FOUND)) /\ Finish(c)
+     ELSE IF objs[s].ents[e].owner # conn[c].pid
+          THEN out' = Send(out, c, Err(loc[c].rid, UNAUTHORIZED)) /\ Finish(c)
+          ELSE out' = out /\ Goto(c, "S_id") /\ Keep(c)
+  /\ UNCHANGED <<reg, sidgen, gauge, objs, mst, conn, held>>
+
+S_id(c) ==               \* m.state.NewAssetInstanceID()   (ids of one state are never reissued)
+  LET m == conn[c].ms
+      n == IF 0 \in DOMAIN mst[m] THEN mst[m][0] + 1 ELSE 1 IN
+  /\ mst' = [mst EXCEPT ![m] = Put(@, 0, n)]
+  /\ SetLoc(c, [loc[c] EXCEPT !.id = n])
+  /\ Goto(c, "S_set")
+  /\ UNCHANGED <<reg, sidgen, gauge, objs, conn, held, out>>
+
+S_set(c) ==              \* m.state.SetAssetInstance(..); respond.Send(AssetInstanceAddResponse)
+  /\ mst' = [mst EXCEPT ![conn[c].ms] = Put(@, loc[c].req.eid, loc[c].id)]
+  /\ out' = Send(out, c, AssetResp(loc[c].rid, loc[c].req.eid, loc[c].id))
+  /\ Goto(c, "S_bcast") /\ Keep(c)
+  /\ UNCHANGED <<reg, sidgen, gauge, objs, conn, held>>
+
+S_bcast(c) ==            \* session.Broadcast(participant, AssetInstanceAddBroadcast)
+  /\ out' = Bcast(out, Others(conn[c].sess, c), AssetB(loc[c].req.eid, loc[c].id))
+  /\ Finish(c)
+  /\ UNCHANGED <<reg, sidgen, gauge, objs, mst, conn, held>>
+
+(***************************************************************************)
 (* One step of one handler: the lock it waits for can be taken             *)
 (***************************************************************************)
 Body(c) ==
@@ -573,7 +616,8 @@ Body(c) ==
     [] pc[c] = "D_get"      -> D_get(c)      [] pc[c] = "D_comp"     -> D_comp(c)     [] pc[c] = "D_rm"      -> D_rm(c)
     [] pc[c] = "D_bcast"    -> D_bcast(c)    [] pc[c] = "D_vget"     -> D_vget(c)     [] pc[c] = "D_vrm"     -> D_vrm(c)
     [] pc[c] = "A_get"      -> A_get(c)      [] pc[c] = "A_cur"      -> A_cur(c)      [] pc[c] = "A_set"     -> A_set(c)
-    [] pc[c] = "A_bcast"    -> A_bcast(c)
+    [] pc[c] = "A_bcast"    -> A_bcast(c)    [] pc[c] = "S_get"      -> S_get(c)      [] pc[c] = "S_id"      -> S_id(c)
+    [] pc[c] = "S_set"      -> S_set(c)      [] pc[c] = "S_bcast"    -> S_bcast(c)
 
 Step(c) == /\ ~Idle(c) /\ CanAcquire(c) /\ Body(c) /\ prog' = prog
 
@@ -655,8 +699,8 @@ Fold(r, ms) ==
               [] m.t = "ENTITY_ADD_BROADCAST"     -> [r EXCEPT !.E = @ \cup {[id |-> m.eid, owner |-> m.owner]}]
               [] m.t \in {"ENTITY_DELETE_RESPONSE", "ENTITY_DELETE_BROADCAST"}
                                                   -> [r EXCEPT !.E = {x \in @ : x.id # m.eid}, !.A = {x \in @ : x.eid # m.eid}]
-              [] m.t = "VIKJA_STATE"              -> [r EXCEPT !.A = m.acts]
-              [] m.t \in {"ACTION_RESPONSE", "ACTION_BROADCAST"}
+              [] m.t \in {"VIKJA_STATE", "ODAL_STATE"} -> [r EXCEPT !.A = m.acts]
+              [] m.t \in {"ACTION_RESPONSE", "ACTION_BROADCAST", "ASSET_ADD_RESPONSE", "ASSET_ADD_BROADCAST"}
                                                   -> [r EXCEPT !.A = {x \in @ : x.eid # m.eid} \cup {[eid |-> m.eid, v |-> m.v]}]
               [] OTHER                            -> r
   IN Fold(r2, Tail(ms))
@@ -666,15 +710,15 @@ Replica(c) == Fold([me |-> 0, P |-> {}, E |-> {}, A |-> {}, snap |-> FALSE], out
 \* non-persistent entities of a departed owner are deleted with a broadcast each, so the client needs no extra rule
 Truth(c) == LET s == conn[c].sess IN
             [P |-> DOMAIN objs[s].parts, E |-> EntRows(s),
-             A |-> IF Vikja /\ objs[s].ms # 0 THEN ActRows(objs[s].ms) ELSE {}]
+             A |-> IF HasMod /\ objs[s].ms # 0 THEN ActRows(objs[s].ms) ELSE {}]
 
 ConvBody == \A c \in Conns : Joined(c) =>
-          LET r == Replica(c) IN r.P = Truth(c).P /\ r.E = Truth(c).E /\ (Vikja => r.A = Truth(c).A)
+          LET r == Replica(c) IN r.P = Truth(c).P /\ r.E = Truth(c).E /\ (HasMod => r.A = Truth(c).A)
 Conv == AtRest => ConvBody
 
 \* The ways convergence fails on this tree, as predicates over what the connections were sent (so that they can
 \* be evaluated on a recorded execution of the real handlers as well); known findings D9, D13, D15.
-Relays == {"JOIN_BROADCAST", "LEAVE_BROADCAST", "ENTITY_ADD_BROADCAST", "ENTITY_DELETE_BROADCAST", "ACTION_BROADCAST"}
+Relays == {"JOIN_BROADCAST", "LEAVE_BROADCAST", "ENTITY_ADD_BROADCAST", "ENTITY_DELETE_BROADCAST", "ACTION_BROADCAST", "ASSET_ADD_BROADCAST"}
 
 \* D9: after its join response a connection is handed a relay before its snapshot
 RECURSIVE RelayBeforeSnapshot(_, _)
@@ -688,7 +732,7 @@ RelayBeforeSnapshot(ms, waiting) ==
 D9Symptom  == \E c \in Conns : RelayBeforeSnapshot(out[c], FALSE)
 
 \* D13 (repaired: ModuleStateOrSet): a connection works on a module state that is not the session's
-D13Symptom == Vikja /\ \E c \in Conns : Joined(c) /\ conn[c].ms # 0 /\ objs[conn[c].sess].ms # conn[c].ms
+D13Symptom == HasMod /\ \E c \in Conns : Joined(c) /\ conn[c].ms # 0 /\ objs[conn[c].sess].ms # conn[c].ms
 
 \* D15: the module state handed to a newcomer is read after (or before) a change whose core part the snapshot
 \* already (or not yet) reflects: VIKJA_STATE names an entity the SESSION_STATE of the same join does not hold
@@ -699,7 +743,7 @@ StaleModuleState(ms, E) ==
   IF m.t = "SESSION_STATE" THEN StaleModuleState(Tail(ms), {x.id : x \in m.ents})
   ELSE IF m.t = "ENTITY_ADD_BROADCAST" THEN StaleModuleState(Tail(ms), E \cup {m.eid})
   ELSE IF m.t = "ENTITY_DELETE_BROADCAST" THEN StaleModuleState(Tail(ms), E \ {m.eid})
-  ELSE IF m.t = "VIKJA_STATE" THEN (\E a \in m.acts : a.eid \notin E) \/ StaleModuleState(Tail(ms), E)
+  ELSE IF m.t \in {"VIKJA_STATE", "ODAL_STATE"} THEN (\E a \in m.acts : a.eid \notin E) \/ StaleModuleState(Tail(ms), E)
   ELSE StaleModuleState(Tail(ms), E)
 D15Symptom == \E c \in Conns : StaleModuleState(out[c], {})
 
@@ -714,7 +758,7 @@ Inapplicable(ms, E, snap) ==
   ELSE IF m.t \in {"ENTITY_ADD_BROADCAST", "ENTITY_ADD_RESPONSE"} THEN Inapplicable(Tail(ms), E \cup {m.eid}, snap)
   ELSE IF m.t = "ENTITY_DELETE_RESPONSE" THEN Inapplicable(Tail(ms), E \ {m.eid}, snap)
   ELSE IF m.t = "ENTITY_DELETE_BROADCAST" THEN (snap /\ m.eid \notin E) \/ Inapplicable(Tail(ms), E \ {m.eid}, snap)
-  ELSE IF m.t = "ACTION_BROADCAST" THEN (snap /\ m.eid \notin E) \/ Inapplicable(Tail(ms), E, snap)
+  ELSE IF m.t \in {"ACTION_BROADCAST", "ASSET_ADD_BROADCAST"} THEN (snap /\ m.eid \notin E) \/ Inapplicable(Tail(ms), E, snap)
   ELSE Inapplicable(Tail(ms), E, snap)
 D16Symptom == \E c \in Conns : Inapplicable(out[c], {}, FALSE)
 
@@ -726,15 +770,15 @@ OlderAfterNewer(ms, latest) ==
   IF ms = <<>> THEN FALSE ELSE
   LET m == Head(ms) IN
   IF m.t = "JOIN_RESPONSE" THEN OlderAfterNewer(Tail(ms), Empty)
-  ELSE IF m.t = "VIKJA_STATE" THEN OlderAfterNewer(Tail(ms), [e \in {a.eid : a \in m.acts} |-> (CHOOSE a \in m.acts : a.eid = e).v])
-  ELSE IF m.t \in {"ACTION_RESPONSE", "ACTION_BROADCAST"}
+  ELSE IF m.t \in {"VIKJA_STATE", "ODAL_STATE"} THEN OlderAfterNewer(Tail(ms), [e \in {a.eid : a \in m.acts} |-> (CHOOSE a \in m.acts : a.eid = e).v])
+  ELSE IF m.t \in {"ACTION_RESPONSE", "ACTION_BROADCAST", "ASSET_ADD_RESPONSE", "ASSET_ADD_BROADCAST"}
        THEN (m.eid \in DOMAIN latest /\ m.v < latest[m.eid]) \/ OlderAfterNewer(Tail(ms), Put(latest, m.eid, m.v))
   ELSE OlderAfterNewer(Tail(ms), latest)
 D17Symptom == \E c \in Conns : OlderAfterNewer(out[c], Empty)
 
 \* D18: an action outlives its entity - a departure clears the actions of the leaver's entities (module pass) before
 \* it removes the entities; an action set in between stays in the module state of the session for good
-D18Symptom == Vikja /\ \E s \in Rng(reg) : objs[s].ms # 0 /\ \E e \in DOMAIN mst[objs[s].ms] : e \notin DOMAIN objs[s].ents
+D18Symptom == HasMod /\ \E s \in Rng(reg) : objs[s].ms # 0 /\ \E e \in (DOMAIN mst[objs[s].ms]) \ {0} : e \notin DOMAIN objs[s].ents
 
 \* witnesses: a state at rest in which convergence has failed in the given way (TLC's counterexample to W_x is a
 \* shortest schedule that produces it; tools/relayconc_check.py forces it on the real handlers)
